@@ -959,12 +959,54 @@ func (s *scen) opByPath(paths []int, vals []uint64, via, desc string) {
 	s.judgeNewDirs("ByPath", via, o, inPaths)
 }
 
+// proofListOf writes counts as a miner.proof_list string; false when counts cannot be written (no items).
+func (s *scen) proofListOf(counts map[int]int) (string, bool) {
+	var bls []int
+	for bl := range counts {
+		bls = append(bls, bl)
+	}
+	sort.Ints(bls)
+	var items []string
+	for _, bl := range bls {
+		n := counts[bl]
+		for n > 1 && n <= 1<<20 && s.rng.Chance(1, 2) {
+			part := 1 + s.rng.Intn(n-1)
+			items = append(items, fmt.Sprintf("%d:%d", bl, part))
+			n -= part
+		}
+		items = append(items, fmt.Sprintf("%d:%d", bl, n))
+	}
+	if len(items) == 0 {
+		return "", false
+	}
+	for i := len(items) - 1; i > 0; i-- {
+		j := s.rng.Intn(i + 1)
+		items[i], items[j] = items[j], items[i]
+	}
+	sep := s.rng.PickS(",", ", ", " , ")
+	return strings.Join(items, sep), true
+}
+
 func (s *scen) opByCounts(counts map[int]int, desc string) {
 	c := &call{Op: "ConfigureByBitLength", Via: "keeper", Args: map[string]interface{}{"bl_count": counts}}
 	s.descs = append(s.descs, c.Op+" "+desc)
 	cp := map[int]int{}
 	for k, v := range counts {
 		cp[k] = v
+	}
+	// the same request the way the node's configuration file states it (miner.proof_list, decoded at start-up): items
+	// in seeded order, bit lengths with a count above 1 sometimes split into several items, blanks here and there
+	if list, ok := s.proofListOf(counts); ok {
+		got, err := config.DecodeProofList(list)
+		s.run.Count("proof_lists_decoded", 1)
+		same := err == nil && len(got) == len(counts)
+		for bl, n := range counts {
+			same = same && got[bl] == n
+		}
+		if !same {
+			s.violate("proof-list-decoded-differently", map[string]string{"method": "ByBitLength", "via": "config"},
+				map[string]interface{}{"proof_list": list, "requested_counts": counts, "decoded": got, "err": fmt.Sprint(err)})
+		}
 	}
 	o := s.exec(c, s.firstNewDir(), func() ([]engine.WorkSpaceInfo, error) { return s.k.ConfigureByBitLength(cp, false, false) })
 	have := map[int]int{}
